@@ -128,6 +128,11 @@ func (w *Watcher) getGovernanceEventsByTxId(
 		if event.EventIndex != WormholeMessageEventIndex {
 			continue
 		}
+		// the transaction's events come from every contract it touched: only the
+		// governance contract's own events are wormhole messages
+		if event.ContractAddress != address {
+			continue
+		}
 
 		header, err := client.GetBlockHeader(ctx, event.BlockHash)
 		if err != nil {
